@@ -54,9 +54,16 @@ def element():
     )
 
 
+# characters that Python (str.isspace, the regex class \s) counts as white space and ES5 does not; as a
+# separator they make the text lexically invalid (the lexer raises: outside the quantifier), and a lexer that
+# swallows them shows a gap that is not layout
+NOT_WS = ['\x85', '\x1c', '\x1d', '\x1e', '\x1f', u'\u200b']
+
+
 def separator(allow_empty=True):
     parts = st.one_of(st.sampled_from(WS), st.sampled_from(LTS), st.sampled_from(COMMENTS),
-                      st.sampled_from([' ', ' ', '\n']))
+                      st.sampled_from([' ', ' ', '\n']), st.sampled_from(WS), st.sampled_from(LTS),
+                      st.sampled_from(COMMENTS), st.sampled_from([' ', ' ', '\n']), st.sampled_from(NOT_WS))
     return st.lists(parts, min_size=0 if allow_empty else 1, max_size=3).map(''.join)
 
 
